@@ -1,0 +1,40 @@
+//go:build verif
+
+package value
+
+// Specification vocabulary and contracts checked by /verif/hvc (build tag
+// verif only; see /verif/DESIGN.md).
+
+/*@ template for (self Value*) Clone
+    serves C13
+    trusted
+    modifies nothing
+    ensures result != nil && *result != nil
+    ensures (*result).Kind() == self.Kind()
+@*/
+
+/*@ template for (self Value*) IsEqual
+    serves C13
+    trusted
+    modifies nothing
+    requires other != nil && other.Kind() == self.Kind()
+@*/
+
+/*@ template for (self Value*) Display
+    serves C13
+    trusted
+    modifies nothing
+@*/
+
+/*@ template for (self Value*) Fields
+    serves C18
+    trusted
+    modifies nothing
+    ensures ret1 == nil ==> ret0 != nil
+@*/
+
+/*@ template for (self Value*) IntoIter
+    serves C18
+    trusted
+    modifies nothing
+@*/
